@@ -23,6 +23,9 @@ import KinModel.PanicSites
 import KinModel.Gen.PanicSites
 import KinModel.MapRanges
 import KinModel.Gen.MapRanges
+import KinModel.SchemaSites
+import KinModel.Gen.SubSchemaFields
+import KinModel.Gen.SchemaErrorSites
 import KinModel.NoPanic.Server
 import KinModel.NoPanic.Router
 import KinModel.NoPanic.Recursion
@@ -76,6 +79,18 @@ theorem no_order_dependent_panic :
 theorem order_visible_rows :
     MapRanges.panicFreeRows MapRanges.expectations Gen.mapRanges =
       ["permutePart", "NewRouter", "UrlencodedBodyDecoder", "buildResObj", "makeObject", "notJSONData"] := by decide
+
+/-! ## T3: `IsEmpty` is only evaluated where it terminates; enum errors carry their schema -/
+
+/-- `Schema.IsEmpty` descends through Not, AdditionalProperties.Schema, Items, Properties, OneOf, AnyOf, AllOf without
+    a visited set; `hasSubSchemas` tests every one of them and the only caller outside `IsEmpty` (`visitJSON`) stands
+    behind `!schema.hasSubSchemas() &&`. A field dropped from `hasSubSchemas` (the seeded change C10-r3m2), a new
+    field in `IsEmpty`, or a new unguarded caller breaks this. -/
+theorem isEmpty_fields_all_guarded : SchemaSites.isEmptyGuarded Gen.subSchemaFields = true := by decide
+
+/-- every `SchemaError` literal of openapi3 / openapi3filter whose `SchemaField` is "enum" (or is not a literal) sets
+    `Schema`: the errors the library builds satisfy `ErrWF` -/
+theorem enum_errors_carry_schema : SchemaSites.enumErrorsCarrySchema Gen.schemaErrorSites = true := by decide
 
 /-! ## Server.MatchRawURL -/
 
@@ -455,6 +470,27 @@ theorem convertErrors_no_panic (e : ReqErrM) (h : ErrWF e = true) : (convertErro
   | emptyValue => rfl
   | parse a b c => rfl
   | other => rfl
+
+/-- what one literal of the table builds, as `ConvertErrors` sees it -/
+def builtBy (r : SchemaSites.ErrRow) : SchemaErrM := ⟨r.enumLike, !r.schemaSet⟩
+
+/-- `ErrWF` is not an assumption about the library's own errors: a request error whose schema-error chain consists
+    of errors built by the literals of the regenerated table `SchemaErrorSites` is well-formed, so `ConvertErrors`
+    does not panic on it -/
+theorem convertErrors_no_panic_of_library_errors (paramNil : Bool) (chain : List SchemaErrM)
+    (h : ∀ x ∈ chain, ∃ r ∈ Gen.schemaErrorSites, x = builtBy r) :
+    (convertErrors ⟨paramNil, .schema chain⟩).bad = false := by
+  apply convertErrors_no_panic
+  unfold ErrWF
+  simp only [List.all_eq_true]
+  intro x hx
+  obtain ⟨r, hr, rfl⟩ := h x hx
+  have hall := enum_errors_carry_schema
+  unfold SchemaSites.enumErrorsCarrySchema at hall
+  simp only [Bool.and_eq_true, List.all_eq_true] at hall
+  have := hall.1 r hr
+  simp only [builtBy]
+  cases he : r.enumLike <;> cases hs : r.schemaSet <;> simp_all
 
 /-- the whole modelled path: route (either router) → request → response → error conversion -/
 structure Scenario where
